@@ -4,7 +4,7 @@ TIER=$1; shift
 cd "$(dirname "$0")/.." && ./check build >/dev/null 2>&1
 LOG=${SWEEP_LOG_DIR:-/tmp}
 for SEED in "$@"; do
-  for ID in C01 C02 C03 C04 C05 C06 C07 C08 C09 C10 C11 C12 C13 C14 C15 C16 C17 C18 C19 C20; do
+  for ID in ${SWEEP_IDS:-C01 C02 C03 C04 C05 C06 C07 C08 C09 C10 C11 C12 C13 C14 C15 C16 C17 C18 C19 C20}; do
     T0=$(date +%s)
     VERIF_SEED=$SEED ./check $ID $TIER > $LOG/sweep.$ID.$SEED.$TIER.log 2>&1; RC=$?
     T1=$(date +%s)
